@@ -170,6 +170,15 @@ HAND = [
     "CC=O.OOC(C)=O>>CC(=O)O.OOC(C)=O",
     "CC(=O)OC.[H]C#N>>CC(=O)O.[H]C#N",
     "C=C.[H]OO[H]>>CC.[H]OO[H]",
+    # given molecules in a form the tautomer standardiser would rewrite (enol, gem-diol, hemiacetal)
+    "COC(=O)C=C(O)C>>OC(=O)C=C(O)C",
+    "CCOC(=O)CC(O)(O)C>>OC(=O)CC(O)(O)C",
+    "COC(=O)c1ccccc1C(O)OC>>OC(=O)c1ccccc1C(O)OC",
+    "C=C(O)CCOC(C)=O>>C=C(O)CCO",
+    "CC(=O)OCC(O)(O)C(F)(F)F>>OCC(O)(O)C(F)(F)F",
+    "CC(=O)OCC=CO>>OCC=CO",
+    "CC(=O)Nc1ccc(C(O)O)cc1>>Nc1ccc(C(O)O)cc1",
+    "COC(=O)CC(O)OCC>>OC(=O)CC(O)OCC",
     # repeated molecules
     "CC(=O)O.CC(=O)O>>CC(=O)OC(C)=O",
     "CCO.CCO.CCO>>CCOCC",
